@@ -39,8 +39,6 @@ ASSUMPTIONS = ['string arguments are whole vocabulary words, so every '
                'date-times (dict; maildir stores a timestamp, so +0000 '
                'there) carry zones in which the UTC day differs; every '
                'message has a valid Date: header',
-               'NOT NOT k is not generated (pymap answers BAD: a grammar '
-               'gap, not a wrong result)',
                'a hidden expunged message may or may not be reported']
 BUDGET = {'quick': (400, 16), 'thorough': (8000, 16)}
 
@@ -226,15 +224,11 @@ def _compile(tree: Any, ctx: Ctx, depth: int = 0,
         w, f = _leaf(tree[1], tree[2], tree[3], ctx)
         return w, f, depth
     if kind == 'not':
-        # NOT NOT k is a grammar gap in pymap (BAD), not a wrong result:
-        # directly nested NOTs are collapsed by parity
-        nots = 1
+        # (directly nested NOTs are written out: search-key = "NOT" SP
+        # search-key, so NOT NOT k is a legal program equivalent to k)
         inner = tree[1]
-        while inner[0] == 'not':
-            nots += 1
-            inner = inner[1]
-        if nots % 2 == 0:
-            return _compile(inner, ctx, depth, False)
+        if inner[0] == 'not':
+            ctx.labels.add('not-not')
         w, f, d = _compile(inner, ctx, depth + 1, True)
         if ' ' in w and not w.startswith('('):
             first = w.split(' ')[0]
